@@ -247,6 +247,18 @@ def run(tier, seed):
     if hist[0]:
         vio["history"] = dict(check="history", signature="context-leak-between-documents", what=f"C10 {hist[0]} resolutions used a context of another document",
                               has_input=False, inputs={})
+    from bounded import livefresh
+    from bounded.edits import merge
+
+    lf = livefresh.run("C10", tier, seed)
+    base = _base(n, skipped, tier, items, vio, t0, hist)
+    out = merge(base, lf)
+    out["not_navigable"] = skipped
+    out["registry_size_after_history"] = hist[1]
+    return out
+
+
+def _base(n, skipped, tier, items, vio, t0, hist):
     return dict(evaluations=n + 1, distinct_nontrivial=n - skipped, not_navigable=skipped,
                 rule=f"all nestings up to depth {3 if tier == 'quick' else 4} of let / rec set / with / plain set / directly applied lambda, the "
                      "name bound at every subset of levels (distinct marker per level); reference in the innermost set; expected binder by Nix "
@@ -257,6 +269,10 @@ def run(tier, seed):
 
 def replay(v):
     i = v["inputs"]
+    if "ops" in i:
+        from bounded import livefresh
+
+        return livefresh.replay("C10", v)
     if "frames" in i:
         sym = eval_case((i["frames"], i["binds"]))
     else:
